@@ -694,7 +694,12 @@ static void build_expr(WorkList *list, ASTNode *expr, Environment *env) {
     
     switch (expr->type) {
         case AST_NUMBER:
-            emit_formatted(list, "%lldLL", expr->as.number);
+            if (expr->as.number == INT64_MIN) {
+                /* C has no negative literals: -9223372036854775808LL is out of range */
+                emit_literal(list, "(-9223372036854775807LL - 1)");
+            } else {
+                emit_formatted(list, "%lldLL", expr->as.number);
+            }
             break;
             
         case AST_FLOAT:
@@ -744,7 +749,11 @@ static void build_expr(WorkList *list, ASTNode *expr, Environment *env) {
             Symbol *sym = env_get_var(env, expr->as.identifier);
             if (sym && !sym->is_mut) {
                 if (sym->value.type == VAL_INT) {
-                    emit_formatted(list, "%lldLL", (long long)sym->value.as.int_val);
+                    if (sym->value.as.int_val == INT64_MIN) {
+                        emit_literal(list, "(-9223372036854775807LL - 1)");
+                    } else {
+                        emit_formatted(list, "%lldLL", (long long)sym->value.as.int_val);
+                    }
                     return;
                 } else if (sym->value.type == VAL_FLOAT) {
                     emit_formatted(list, "%g", sym->value.as.float_val);
